@@ -43,6 +43,7 @@ class Unit:
         self.labels = {}            # clause label -> (section, text) for reporting
         self.assoc_types = True     # emit the source impl's `type X = ..;` members
         self.add_generics = ""      # generic parameters added to the emitted fn (impl-level generics moved to the method)
+        self.loop_context = False   # emit #[verifier::loop_isolation(false)]: loops see the facts established before them
         self.enum_loops = False     # R26: enumerate()/rev() loops over a slice iterator -> index loops
         self.const_branches = False # R25: drop branches whose `size_of` condition is constant after instantiation
         self.idents = {}            # R23: local identifier renames (names that are keywords inside verus!, e.g. a parameter called `int`)
@@ -144,6 +145,8 @@ def parse_units(path):
                         if kv:
                             a, b = kv.split("=", 1)
                             cur.subst[a.strip()] = b.strip()
+                elif k == "loop_context":
+                    cur.loop_context = v.strip().lower() in ("1", "true", "yes")
                 elif k == "enum_loops":
                     cur.enum_loops = v.strip().lower() in ("1", "true", "yes")
                 elif k == "const_branches":
